@@ -167,7 +167,12 @@ type closeNotifyRecorder struct {
 	code   int
 	body   bytes.Buffer
 	hangup chan bool
+	slow   bool // a slow reader: the handler's Write is taken in two pieces with a scheduling point between them
 }
+
+// slowReaders (set per run by a scenario, on the root, before the clients start): every response is
+// read slowly, so that other requests are served while a response is still being written.
+var slowReaders bool
 
 func newRecorder() *closeNotifyRecorder {
 	return &closeNotifyRecorder{hdr: http.Header{}, hangup: make(chan bool, 1)}
@@ -181,6 +186,13 @@ func (r *closeNotifyRecorder) WriteHeader(c int) {
 func (r *closeNotifyRecorder) Write(p []byte) (int, error) {
 	if r.code == 0 {
 		r.code = 200
+	}
+	if (r.slow || slowReaders) && len(p) > 1 {
+		h := len(p) / 2
+		r.body.Write(p[:h])
+		vsim.Yield("resp-write", "slow reader")
+		r.body.Write(p[h:])
+		return len(p), nil
 	}
 	return r.body.Write(p)
 }
